@@ -138,8 +138,13 @@ impl RevocationBitmap {
 
   /// Deserializes [`RevocationBitmap`] from a slice of bytes.
   fn deserialize_slice(data: &[u8]) -> Result<Self, RevocationError> {
-    RoaringBitmap::deserialize_from(data)
-      .map_err(RevocationError::BitmapDecodingError)
+    let bitmap: RoaringBitmap = RoaringBitmap::deserialize_from(data).map_err(RevocationError::BitmapDecodingError)?;
+    // `deserialize_from` keeps a run container without runs as an empty container, which `serialize_into` cannot
+    // write, and does not check the order of the container keys: rebuild the bitmap from the values it holds.
+    RoaringBitmap::from_sorted_iter(bitmap.iter())
+      .map_err(|err| {
+        RevocationError::BitmapDecodingError(std::io::Error::new(std::io::ErrorKind::InvalidData, err.to_string()))
+      })
       .map(Self)
   }
 
